@@ -37,6 +37,7 @@ type PropSpec struct {
 	Funcs    []PropFunc
 	Sweeps   []string // regexps over function keys: safety-only, zero-annotation
 	SweepTerm bool
+	SweepSafety bool // sweeps drop ensures/invariants (functional contracts are proved under another property)
 	Lemmas   []string
 	Ifaces   []string
 	Clauses  []ClauseRow
@@ -92,6 +93,8 @@ func LoadPropSpec(path string) (*PropSpec, error) {
 			ps.Sweeps = append(ps.Sweeps, rest)
 		case "sweepterm":
 			ps.SweepTerm = true
+		case "sweepsafety":
+			ps.SweepSafety = true
 		case "lemma":
 			ps.Lemmas = append(ps.Lemmas, rest)
 		case "iface":
@@ -287,7 +290,7 @@ func RunProperty(args []string) int {
 		sort.Strings(keys)
 		for _, k := range keys {
 			seen[k] = true
-			works = append(works, work{v.FuncByKey(k), UnitOpts{WantTerm: ps.SweepTerm, UseCands: true, SafetyOnly: false}, k})
+			works = append(works, work{v.FuncByKey(k), UnitOpts{WantTerm: ps.SweepTerm, UseCands: true, SafetyOnly: ps.SweepSafety}, k})
 		}
 	}
 	v.VerifiedSeparately = map[string]bool{}
